@@ -2,7 +2,7 @@
    the model's [twos_complement] (Model/Decode.v), for every value and every width >= 1.  Compiled on every C04 run against the
    freshly generated Gen/Fun_C04.v. *)
 From Coq Require Import ZArith List Bool Lia.
-From SPP Require Import Base.Bytes Base.Sx Base.PyEval Model.Decode Gen.Fun_C04.
+From SPP Require Import Base.Bytes Base.Sx Base.PyEval Model.Cursor Model.Values Model.Doc Model.Decode Gen.Fun_C03 Gen.FunOk_C03 Gen.Fun_C04.
 Import ListNotations.
 Open Scope Z_scope.
 
@@ -27,3 +27,57 @@ Proof.
   - cbn [Z.eqb negb PyEval.truthy bind]. reflexivity.
 Qed.
 Print Assumptions gen_twos_complement_is_model.
+
+(* ---- IntegerDataEncoding._get_raw_value: read, byte reversal for least-significant-byte-first, sign ---- *)
+Lemma slice_short a b (l : list Z) : a <= b -> zlen (slice a b l) <= b - a.
+Proof. intro H. unfold slice, zlen. pose proof (firstn_le_length (Z.to_nat (b - a)) (skipn (Z.to_nat a) l)). lia. Qed.
+
+Lemma extract_bits_fits data p n v : wf data -> 0 <= p -> 0 <= n -> extract_bits data p n = Ok v -> 0 <= v < 2 ^ (8 * ((n + 7) / 8)).
+Proof.
+  intros W Hp Hn. unfold extract_bits.
+  assert (Q : 0 <= (p mod 8 + n + 7) / 8) by (apply Z.div_pos; [pose proof (Z.mod_pos_bound p 8 ltac:(lia)); lia|lia]).
+  assert (P8 : 0 <= p / 8) by (apply Z.div_pos; lia).
+  destruct (Z.ltb_spec (p / 8 + (p mod 8 + n + 7) / 8) 0) as [?|_]; [lia|].
+  destruct (p mod 8 =? 0) eqn:A; cbn [andb].
+  - destruct (n mod 8 =? 0) eqn:B.
+    + intro H. injection H as <-. apply Z.eqb_eq in A. rewrite A in *. cbn [Z.add] in *.
+      set (d := slice (p / 8) (p / 8 + (n + 7) / 8) data).
+      pose proof (from_be_bound d (wf_slice _ _ _ W)) as Bd. pose proof (slice_short (p / 8) (p / 8 + (n + 7) / 8) data ltac:(lia)) as Sd. fold d in Sd.
+      assert (2 ^ (8 * zlen d) <= 2 ^ (8 * ((n + 7) / 8))) by (apply Z.pow_le_mono_r; lia). lia.
+    + match goal with |- context [if ?c then Err EValue else _] => destruct c end; [discriminate|].
+      destruct (n <? 0); [discriminate|]. intro H. injection H as <-. apply masked_fits; lia.
+  - match goal with |- context [if ?c then Err EValue else _] => destruct c end; [discriminate|].
+    destruct (n <? 0); [discriminate|]. intro H. injection H as <-. apply masked_fits; lia.
+Qed.
+
+Definition int_enc (size : Z) (lsb unsigned : bool) : numeric_enc :=
+  {| ne_size := size; ne_kind := KInt (negb unsigned); ne_order := if lsb then LSB else MSB; ne_default := None; ne_context := None |}.
+Definition out_raw (r : res (num * cursor)) : res (pv * pv) :=
+  match r with Ok (NInt v, c') => Ok (VInt v, VInt (cpos c')) | Ok (NFloat _, _) => Err EOther | Err e => Err e end.
+
+Theorem gen_int_raw_is_model data pos size lsb unsigned : wf data -> 0 <= pos ->
+  gen_int_raw (VBytes data) (VInt pos) (VInt size) (VBool lsb) (VBool unsigned) =
+  out_raw (raw_numeric (int_enc size lsb unsigned) {| cdata := data; cpos := pos |}).
+Proof.
+  intros W Hp. unfold gen_int_raw, raw_numeric, int_enc, out_raw. cbn [ne_kind ne_size ne_order].
+  rewrite (gen_read_as_int_is_model data pos size Hp). unfold out_int, read_as_int. cbn [cdata cpos].
+  destruct (Z.ltb_spec size 0) as [?|Hs]; [reflexivity|].
+  destruct (extract_bits data pos size) as [v|e] eqn:X; cbn [bind]; [|reflexivity].
+  pose proof (extract_bits_fits data pos size v W Hp Hs X) as F.
+  assert (Q : 0 <= (size + 7) / 8) by (apply Z.div_pos; lia).
+  assert (V : (if PyEval.truthy (VBool lsb)
+               then (t5 <- py_add (VInt size) (VInt 7) ;; t4 <- py_floordiv t5 (VInt 8) ;; t3 <- py_to_bytes_little (VInt v) t4 ;; t2 <- py_from_bytes_big t3 ;; Ok t2)
+               else Ok (VInt v))
+              = Ok (VInt (match (if lsb then LSB else MSB) with LSB => reverse_bytes v (Z.to_nat ((size + 7) / 8)) | MSB => v end))).
+  { destruct lsb; cbn [PyEval.truthy]; [|reflexivity].
+    cbn [py_add arith as_int bind py_floordiv Z.eqb py_to_bytes_little].
+    destruct (Z.ltb_spec ((size + 7) / 8) 0) as [?|_]; [lia|]. destruct (Z.ltb_spec v 0) as [?|_]; [lia|].
+    destruct (Z.leb_spec (2 ^ (8 * ((size + 7) / 8))) v) as [?|_]; [lia|]. reflexivity. }
+  cbn [cpos] in *. rewrite V. cbn [bind].
+  set (v' := match (if lsb then LSB else MSB) with LSB => _ | MSB => v end).
+  destruct unsigned; cbn [PyEval.truthy negb andb]; [reflexivity|].
+  destruct (Z.ltb_spec size 1) as [H0|H1].
+  - assert (size = 0) by lia. subst size. unfold gen_twos_complement. cbn [py_sub py_lshift arith as_int bind Z.sub Z.ltb Z.compare Z.opp Z.add Z.pos_sub]. reflexivity.
+  - rewrite gen_twos_complement_is_model by lia. reflexivity.
+Qed.
+Print Assumptions gen_int_raw_is_model.
